@@ -116,6 +116,14 @@ PrefixOdd == {p \o <<t>> : p \in {<<"SentOk1", "HdrRun", "SymPlain", "LocPc", "S
                                   <<"SentOk1", "HdrRun", "SymPlain", "LocPc", "LocParenPc">>,
                                   <<"SentOk1", "HdrRun", "SymPlain", "LocPc", "SymParen1">>},
                          t \in {"Blank", "Created"}}
+\* a symbol-position line without "(" whose location line is kept: first frame,
+\* a later frame, the frame after sigpanic
+PrefixNoSym == {<<"SentOk1", "HdrRun", "NoParen", "LocPc", "SymPlain", "LocPc">>,
+                <<"SentOk1", "HdrRun", "SymPlain", "LocPc", "NoParen", "LocPc">>,
+                <<"SentOk1", "HdrRun", "SymSig", "LocPc", "NoParen", "LocPc">>}
+(* symbol text does not matter: putting the "(" back changes nothing for a   *)
+(* report that already is in the genuine format                              *)
+SymTextOK == WellFormed(hist) => (AsSym(hist) = hist) /\ WellFormed(AsSym(AsText(hist)))
 PrefixTrap == {<<"SentOk2", "NoParen", "HdrRun", "SymSig", "LocPc">>}
 
 NpcClass(n) == IF n <= Cap + 1 THEN n ELSE Cap + 2
